@@ -12,7 +12,7 @@ func vxBoundsA() (nseg, nops, kl, vl int) {
 	if vxTier() == 0 {
 		return 2, 2, 1, 1
 	}
-	return 3, 2, 2, 1
+	return 3, 2, 1, 1
 }
 
 // vxH_C01_stackGet: segmentStack.Get on an arbitrary stack of sorted
